@@ -9,16 +9,20 @@ use std::rc::Rc;
 
 use embassy_futures::select::select3;
 
+use rs_matter::dm::clusters::binding::{self, BindingHandler, Bindings};
+use rs_matter::dm::clusters::groups::{self, ClusterHandler as _};
+use rs_matter::dm::clusters::user_label::{self, UserLabelHandler, UserLabels};
+use rs_matter::dm::devices::DEV_TYPE_ROOT_NODE;
 use rs_matter::dm::endpoints::EthSysHandlerBuilder;
 use rs_matter::dm::networks::eth::EthNetwork;
-use rs_matter::dm::{Endpoint, Node};
+use rs_matter::dm::{Async, Dataver, Endpoint, EpClMatcher, Node};
 use rs_matter::im::{EthInteractionModelState, InteractionModel};
 use rs_matter::respond::Responder;
 use rs_matter::tlv::{TLVTag, TLVWrite};
 use rs_matter::transport::exchange::{Exchange, MatterBuffers, MessageMeta};
 use rs_matter::transport::network::NoNetwork;
 use rs_matter::utils::storage::WriteBuf;
-use rs_matter::{root_endpoint, Matter};
+use rs_matter::{clusters, devices, Matter};
 
 use super::imdrv::{self, Answer};
 use super::kv::RecKv;
@@ -36,7 +40,38 @@ pub const CL_GRP_KEY: u32 = 0x3F;
 /// operation 500 ms after a change of the cache). Process-wide: set by the checks that observe it.
 pub static PERSIST_RESUMPTION: std::sync::atomic::AtomicBool = std::sync::atomic::AtomicBool::new(false);
 
-const NODE: Node<'static> = Node { endpoints: &[root_endpoint!(eth)] };
+pub const CL_GROUPS: u32 = 0x04;
+pub const CL_BINDING: u32 = 0x1E;
+pub const CL_USER_LABEL: u32 = 0x41;
+pub const CL_BASIC_INFO: u32 = 0x28;
+
+/// The root endpoint of an Ethernet device plus the clusters whose settings the properties name next to
+/// the fabric table: Groups (group membership of the endpoint), UserLabel and Binding (as the
+/// repository's own system-test device composes them on endpoint 0).
+const EP0: Endpoint<'static> = Endpoint {
+    id: 0,
+    device_types: devices!(DEV_TYPE_ROOT_NODE),
+    clusters: clusters!(eth; groups::GroupsHandler::CLUSTER, user_label::CLUSTER, binding::CLUSTER),
+    client_clusters: &[],
+    unique_id: None,
+    semantic_tags: &[],
+};
+const NODE: Node<'static> = Node { endpoints: &[EP0] };
+
+pub type BindingsReg = Bindings<8>;
+pub type UserLabelsReg = UserLabels<1, 4>;
+
+macro_rules! handler {
+    ($rand:expr, $bindings:expr, $labels:expr) => {{
+        let mut r = $rand;
+        let (d1, d2, d3) = (Dataver::new_rand(&mut r), Dataver::new_rand(&mut r), Dataver::new_rand(&mut r));
+        EthSysHandlerBuilder::new()
+            .build(r)
+            .chain(EpClMatcher::new(Some(0), Some(groups::GroupsHandler::CLUSTER.id)), Async(groups::GroupsHandler::new(d1).adapt()))
+            .chain(EpClMatcher::new(Some(0), Some(user_label::CLUSTER.id)), Async(user_label::HandlerAdaptor(UserLabelHandler::new(d2, 0, $labels))))
+            .chain(EpClMatcher::new(Some(0), Some(binding::CLUSTER.id)), Async(binding::HandlerAdaptor(BindingHandler::new(d3, 0, $bindings))))
+    }};
+}
 
 /// One incarnation of the device: a `Matter` object re-hydrated from `kv`, its IM stack and the
 /// task that runs them. Dropping it (after cancelling the task) is a power cycle.
@@ -46,6 +81,8 @@ pub struct Device {
     pub boot_error: Rc<RefCell<Option<String>>>,
     /// the Interaction Model state (subscription table, events)
     pub im_state: Owned<EthInteractionModelState>,
+    pub bindings: Owned<BindingsReg>,
+    pub user_labels: Owned<UserLabelsReg>,
     _keep: Vec<Box<dyn std::any::Any>>,
 }
 
@@ -56,6 +93,9 @@ pub fn boot(exec: &mut Exec, net: &Net, net_idx: usize, kv: &RecKv, seed: u64, o
     let buffers: Owned<MatterBuffers> = Owned::new(MatterBuffers::new());
     let state: Owned<EthInteractionModelState> = Owned::new(EthInteractionModelState::new(EthNetwork::new_default()));
     let boot_error = Rc::new(RefCell::new(None));
+    let bindings: Owned<BindingsReg> = Owned::new(Bindings::new());
+    let user_labels: Owned<UserLabelsReg> = Owned::new(UserLabels::new());
+    let (bi, ul) = (bindings.get(), user_labels.get());
     let (send, recv) = (net.end(net_idx), net.end(net_idx));
     let (b, st) = (buffers.get(), state.get());
     let kv2 = kv.clone();
@@ -69,7 +109,7 @@ pub fn boot(exec: &mut Exec, net: &Net, net_idx: usize, kv: &RecKv, seed: u64, o
         }
         st.suppress_start_up_event();
         let rand = SeededRng::new(seed + 1);
-        let im = InteractionModel::new(md, &c, b, (NODE, EthSysHandlerBuilder::new().build(rand)), &kvh, st);
+        let im = InteractionModel::new(md, &c, b, (NODE, handler!(rand, bi, ul)), &kvh, st);
         if let Err(e) = im.startup().await {
             *be.borrow_mut() = Some(format!("InteractionModel::startup: {:?}", e.code()));
             return;
@@ -94,7 +134,7 @@ pub fn boot(exec: &mut Exec, net: &Net, net_idx: usize, kv: &RecKv, seed: u64, o
             let _ = select3(md.run(&c, send, recv, NoNetwork), responder.run::<3>(), im.run()).await;
         }
     });
-    Device { matter, task, boot_error, im_state: state, _keep: vec![Box::new(buffers)] }
+    Device { matter, task, boot_error, im_state: state, bindings, user_labels, _keep: vec![Box::new(buffers)] }
 }
 
 /// Start a node from this store content, factory-reset it (Matter level and Interaction Model
@@ -106,6 +146,9 @@ pub fn factory_reset(map: &std::collections::BTreeMap<u16, Vec<u8>>) -> Result<s
     let buffers: Owned<MatterBuffers> = Owned::new(MatterBuffers::new());
     let state: Owned<EthInteractionModelState> = Owned::new(EthInteractionModelState::new(EthNetwork::new_default()));
     let out: Rc<RefCell<Option<Result<(), String>>>> = Rc::new(RefCell::new(None));
+    let bindings: Owned<BindingsReg> = Owned::new(Bindings::new());
+    let user_labels: Owned<UserLabelsReg> = Owned::new(UserLabels::new());
+    let (bi, ul) = (bindings.get(), user_labels.get());
     let mut exec = Exec::new();
     {
         let (b, st) = (buffers.get(), state.get());
@@ -116,7 +159,7 @@ pub fn factory_reset(map: &std::collections::BTreeMap<u16, Vec<u8>>) -> Result<s
             let kvh = md.kv(kv2);
             let r: Result<(), rs_matter::error::Error> = async {
                 md.startup(&kvh)?;
-                let im = InteractionModel::new(md, &c, b, (NODE, EthSysHandlerBuilder::new().build(SeededRng::new(32))), &kvh, st);
+                let im = InteractionModel::new(md, &c, b, (NODE, handler!(SeededRng::new(32), bi, ul)), &kvh, st);
                 im.startup().await?;
                 im.factory_reset().await?;
                 md.factory_reset(&kvh)?;
@@ -129,7 +172,7 @@ pub fn factory_reset(map: &std::collections::BTreeMap<u16, Vec<u8>>) -> Result<s
     exec.run()?;
     drop(exec);
     let r = out.borrow().clone();
-    let _ = (&buffers, &state, &matter);
+    let _ = (&buffers, &state, &matter, &bindings, &user_labels);
     match r {
         Some(Ok(())) => Ok(kv.map()),
         Some(Err(e)) => Err(e),
@@ -316,6 +359,85 @@ pub fn write_acl(entries: &[(u8, Vec<u64>)]) -> Vec<u8> {
     tw.u8(&TLVTag::Context(0xFF), 12).unwrap();
     tw.end_container().unwrap();
     tw.as_slice().to_vec()
+}
+
+/// A write of one whole attribute on endpoint 0: `data` writes the value with tag Context(2).
+pub fn write_attr(cluster: u32, attr: u32, data: impl FnOnce(&mut WriteBuf<'_>)) -> Vec<u8> {
+    let mut buf = vec![0u8; 2048];
+    let mut tw = WriteBuf::new(&mut buf);
+    tw.start_struct(&TLVTag::Anonymous).unwrap();
+    tw.bool(&TLVTag::Context(0), false).unwrap();
+    tw.bool(&TLVTag::Context(1), false).unwrap();
+    tw.start_array(&TLVTag::Context(2)).unwrap();
+    tw.start_struct(&TLVTag::Anonymous).unwrap();
+    tw.start_list(&TLVTag::Context(1)).unwrap();
+    tw.u16(&TLVTag::Context(2), 0).unwrap();
+    tw.u32(&TLVTag::Context(3), cluster).unwrap();
+    tw.u32(&TLVTag::Context(4), attr).unwrap();
+    tw.end_container().unwrap();
+    data(&mut tw);
+    tw.end_container().unwrap();
+    tw.end_container().unwrap();
+    tw.bool(&TLVTag::Context(3), false).unwrap();
+    tw.u8(&TLVTag::Context(0xFF), 12).unwrap();
+    tw.end_container().unwrap();
+    tw.as_slice().to_vec()
+}
+
+/// GroupKeyManagement::GroupKeyMap := [(group id, key set id)]
+pub fn write_group_key_map(entries: &[(u16, u16)]) -> Vec<u8> {
+    write_attr(CL_GRP_KEY, 0, |tw| {
+        tw.start_array(&TLVTag::Context(2)).unwrap();
+        for (g, k) in entries {
+            tw.start_struct(&TLVTag::Anonymous).unwrap();
+            tw.u16(&TLVTag::Context(1), *g).unwrap();
+            tw.u16(&TLVTag::Context(2), *k).unwrap();
+            tw.end_container().unwrap();
+        }
+        tw.end_container().unwrap();
+    })
+}
+
+/// Groups::AddGroup on endpoint 0
+pub fn add_group(group_id: u16, name: &str) -> Vec<u8> {
+    invoke_with(CL_GROUPS, 0, false, |tw| {
+        tw.u16(&TLVTag::Context(0), group_id).unwrap();
+        tw.utf8(&TLVTag::Context(1), name).unwrap();
+    })
+}
+
+/// Binding::Binding := [unicast target (node, endpoint, cluster)]
+pub fn write_binding(targets: &[(u64, u16, u32)]) -> Vec<u8> {
+    write_attr(CL_BINDING, 0, |tw| {
+        tw.start_array(&TLVTag::Context(2)).unwrap();
+        for (n, e, c) in targets {
+            tw.start_struct(&TLVTag::Anonymous).unwrap();
+            tw.u64(&TLVTag::Context(1), *n).unwrap();
+            tw.u16(&TLVTag::Context(3), *e).unwrap();
+            tw.u32(&TLVTag::Context(4), *c).unwrap();
+            tw.end_container().unwrap();
+        }
+        tw.end_container().unwrap();
+    })
+}
+
+/// BasicInformation::NodeLabel
+pub fn write_node_label(label: &str) -> Vec<u8> {
+    write_attr(CL_BASIC_INFO, 5, |tw| tw.utf8(&TLVTag::Context(2), label).unwrap())
+}
+
+/// UserLabel::LabelList := [(label, value)]
+pub fn write_user_labels(entries: &[(&str, &str)]) -> Vec<u8> {
+    write_attr(CL_USER_LABEL, 0, |tw| {
+        tw.start_array(&TLVTag::Context(2)).unwrap();
+        for (l, v) in entries {
+            tw.start_struct(&TLVTag::Anonymous).unwrap();
+            tw.utf8(&TLVTag::Context(0), l).unwrap();
+            tw.utf8(&TLVTag::Context(1), v).unwrap();
+            tw.end_container().unwrap();
+        }
+        tw.end_container().unwrap();
+    })
 }
 
 /// Run one invoke (timed if the request says so) on a fresh exchange.
